@@ -183,6 +183,8 @@ def frac(x, maxden=1 << 20, tol=1e-9, abstol=0.0):
     f = Fraction(x).limit_denominator(maxden)
     if abs(float(f) - x) > max(tol * max(1.0, abs(x)), abstol):
         return None
+    if abs(f.numerator) >= 2 ** 31 - 1:         # TLC integers are 32 bit
+        return None
     return [f.numerator, f.denominator]
 
 
